@@ -78,7 +78,7 @@ def register(reg):
         ],
         properties=["C01", "C05", "C08", "C02"], modular=False, name="FFCXBackendDefinitions.coefficient",
         mutants=[("(ic.global_index) * bs + begin", "(ic.global_index + begin) * bs"),
-                 ("if ttype == 'ones' and end - begin == 1:", "if ttype == 'ones':")]))
+                 ('if ttype == "ones" and end - begin == 1:', 'if ttype == "ones":')]))
 
 
 def register_lincomb(reg):
